@@ -144,6 +144,17 @@ def sample(obj, limit=6):
         S.samples.append(jsonable(obj))
 
 
+def okey(o):
+    """Comparable form of an outcome: the value, or only the *type* of the exception (messages are not promised)."""
+    if isinstance(o, tuple) and len(o) == 2 and o[0] == "raise":
+        return ("raise", type(o[1]).__name__)
+    if isinstance(o, tuple) and len(o) == 2 and o[0] == "ret":
+        return ("ret", repr(o[1]))
+    if isinstance(o, (tuple, list)):
+        return tuple(okey(x) for x in o)
+    return repr(o)
+
+
 def outcome_of(f, *a, **k):
     """Call f and return ("ret", value) or ("raise", exception)."""
     try:
